@@ -106,4 +106,122 @@ theorem go_sound (x64 : Bool) (n fuel : Nat) (cs : List Nat) (uri : Txt)
         obtain ⟨a, b, c, d⟩ := ih _ h
         exact ⟨a, b, c, fun x hx => List.mem_of_mem_drop (d x hx)⟩
 
+theorem toLE_xor_fromLE (a b : Bytes) (h : a.length = b.length) :
+    toLE a.length (fromLE a ^^^ fromLE b) = List.zipWith (· ^^^ ·) a b := by
+  induction a generalizing b with
+  | nil => cases b <;> simp_all [toLE]
+  | cons x xs ih =>
+    cases b with
+    | nil => simp at h
+    | cons y ys =>
+      simp only [List.length_cons, Nat.add_right_cancel_iff] at h
+      simp only [List.length_cons, toLE, fromLE, List.zipWith_cons_cons]
+      have hx := x.toNat_lt
+      have hy := y.toNat_lt
+      have hm : ((x.toNat + 256 * fromLE xs) ^^^ (y.toNat + 256 * fromLE ys)) % 256 = (x ^^^ y).toNat := by
+        have := @Nat.xor_mod_two_pow (x.toNat + 256 * fromLE xs) (y.toNat + 256 * fromLE ys) 8
+        simp only [show (2:Nat)^8 = 256 from rfl] at this
+        rw [this, UInt8.toNat_xor]
+        congr 1 <;> omega
+      have hd : ((x.toNat + 256 * fromLE xs) ^^^ (y.toNat + 256 * fromLE ys)) / 256 = fromLE xs ^^^ fromLE ys := by
+        have := @Nat.xor_div_two_pow (x.toNat + 256 * fromLE xs) (y.toNat + 256 * fromLE ys) 8
+        simp only [show (2:Nat)^8 = 256 from rfl] at this
+        rw [this]
+        congr 1 <;> omega
+      rw [hm, hd, ih ys h]
+      simp
+
+theorem xorCore_eq_zipWith (d k : Bytes) (h : d.length = k.length) :
+    xorCore d k = List.zipWith (· ^^^ ·) d k := by
+  apply List.ext_getElem
+  · simp [xorCore, h]
+  · intro i h1 h2
+    simp only [xorCore, List.getElem_mapIdx, List.getElem_zipWith, keyAt]
+    have hi : i < k.length := by simp [xorCore] at h1; omega
+    rw [Nat.mod_eq_of_lt hi]
+    simp [List.getD_eq_getElem?_getD, hi]
+
+
+theorem flatten_replicate_getElem (n : Nat) (l : Bytes) (i : Nat) (h : i < ((List.replicate n l).flatten).length) :
+    ((List.replicate n l).flatten)[i] = l.getD (i % l.length) 0 := by
+  induction n generalizing i with
+  | zero => simp at h
+  | succ n ih =>
+    simp only [List.replicate_succ, List.flatten_cons] at h ⊢
+    by_cases hi : i < l.length
+    · rw [List.getElem_append_left hi, Nat.mod_eq_of_lt hi]
+      simp [List.getD_eq_getElem?_getD, hi]
+    · have hl : 0 < l.length := by
+        rcases Nat.eq_zero_or_pos l.length with h0 | h0
+        · have : l = [] := List.length_eq_zero_iff.mp h0
+          subst this; simp at h
+        · exact h0
+      rw [List.getElem_append_right (by omega)]
+      rw [ih _ (by simp at h ⊢; omega)]
+      congr 1
+      rw [← Nat.mod_eq_sub_mod (by omega)]
+
+theorem tile_length (key : Bytes) (size : Nat) (hk : key ≠ []) : (tile key size).length = size := by
+  have hl : 0 < key.length := List.length_pos_iff.mpr hk
+  unfold tile
+  split
+  · simp only [List.length_take, List.length_flatten, List.map_replicate, List.sum_replicate_nat]
+    have : size < (size / key.length + 1) * key.length := by
+      have := Nat.div_add_mod size key.length
+      have := Nat.mod_lt size hl
+      rw [Nat.add_mul, Nat.mul_comm]; omega
+    omega
+  · simp; omega
+
+theorem tile_getElem (key : Bytes) (size i : Nat) (hk : key ≠ []) (h : i < (tile key size).length) :
+    (tile key size)[i] = keyAt key i := by
+  have hl : 0 < key.length := List.length_pos_iff.mpr hk
+  have hs : i < size := by rw [tile_length key size hk] at h; exact h
+  unfold tile at h ⊢
+  split
+  · rw [List.getElem_take]
+    exact flatten_replicate_getElem _ _ _ _
+  · rename_i hge
+    rw [List.getElem_take]
+    have hi : i < key.length := by omega
+    simp [keyAt, Nat.mod_eq_of_lt hi, List.getD_eq_getElem?_getD, hi]
+
+
+def cand : List Nat := [48, 57, 65, 90, 97, 122]
+
+/-- search four alphanumerics with a given sum residue mod 256 -/
+def solve4 (r : Nat) : Option (Nat × Nat × Nat × Nat) :=
+  (cand.flatMap fun a => cand.flatMap fun b => cand.flatMap fun c =>
+    ([r, r + 256, r + 512].filterMap fun t =>
+      let d := t - a - b - c
+      if a + b + c ≤ t ∧ isAlnum d then some (a, b, c, d) else none)).head?
+
+def ok4 (r : Nat) : Bool :=
+  match solve4 r with
+  | some (a, b, c, d) => isAlnum a && isAlnum b && isAlnum c && isAlnum d && (a + b + c + d) % 256 == r
+  | none => false
+
+theorem ok4_all : ∀ r, r < 256 → ok4 r = true := by decide +kernel
+
+theorem four_alnum (r : Nat) (h : r < 256) :
+    ∃ a b c d, isAlnum a = true ∧ isAlnum b = true ∧ isAlnum c = true ∧ isAlnum d = true ∧ (a + b + c + d) % 256 = r := by
+  have := ok4_all r h
+  unfold ok4 at this
+  split at this
+  · rename_i a b c d _
+    simp only [Bool.and_eq_true, beq_iff_eq] at this
+    exact ⟨a, b, c, d, this.1.1.1.1, this.1.1.1.2, this.1.1.2, this.1.2, this.2⟩
+  · cases this
+
+theorem filter_replicate48 (n : Nat) : (List.replicate n 48).filter (· ≠ 47) = List.replicate n 48 := by
+  induction n with
+  | zero => rfl
+  | succ n ih => simp [List.replicate_succ]
+
+theorem alnum_ne_slash {c : Nat} (h : isAlnum c = true) : c ≠ 47 := by
+  unfold isAlnum at h
+  simp only [Bool.or_eq_true, Bool.and_eq_true, decide_eq_true_eq] at h
+  omega
+
+
 end C20
